@@ -50,9 +50,13 @@ REQUIRED = {
     "stream.port": 5,
     "stream.mqtt": 5,
     "partition.cases": 50,
+    "startup.cases": 5,
+    "startup.signature_recognised": 5,
+    "restore.cases": 5,
 }
 
 BASE_DTM = dt(2024, 3, 1, 12, 0, 0)
+TX_FILES = {"packet.py", "frame.py", "message.py", "transport.py", "protocol.py", "protocol_fsm.py", "parsers.py", "address.py", "helpers.py", "opentherm.py", "logger.py", "ramses.py"}
 
 
 # ---------------------------------------------------------------------------- (a)
@@ -87,12 +91,23 @@ def api_case(ctx, dtm: str, line: str) -> str | None:
             continue
         except ValueError as err:
             outcome = "value-error"
-            if line.strip() and how == "file":
-                ctx.count("api.value_error_on_nonempty_line")
-                ctx.info.setdefault("value_error_sites", [])
-                site = innermost_lib_frame(err)
-                if site not in ctx.info["value_error_sites"]:
-                    ctx.info["value_error_sites"].append(site)
+            # the value error is for 'an empty or undatable line': a line that holds no frame (blank, only a
+            # comment / an error annotation) is empty; anything else must go through the invalid-packet error
+            core = line.partition("#")[0].partition("*")[0].partition("<")[0].strip()
+            datable = True
+            try:
+                dt.fromisoformat(dtm)
+            except ValueError:
+                datable = False
+            if core and datable:
+                ctx.violate(
+                    f"C01|api.Packet|ValueError|{innermost_lib_frame(err)}",
+                    f"a ValueError (not the invalid-packet error) escapes Packet.from_{how}() for a line that is neither empty nor undatable",
+                    {"dtm": dtm, "line": line, "via": how, "error": repr(err)[:200]},
+                )
+                outcome = "escape"
+            else:
+                ctx.count("api.value_error_on_empty_or_undatable_line")
             continue
         except Exception as err:  # noqa: BLE001 - the monitor's whole point
             ctx.violate(
@@ -548,6 +563,206 @@ async def part_bc(loop: vloop.VirtualLoop, ctx) -> None:
     port_rig.port.close()
 
 
+# ---------------------------------------------------------------------------- (d) start-up of a serial gateway
+async def part_d(loop: vloop.VirtualLoop, ctx) -> None:
+    """A sending gateway polls the stick with a signature frame every 50 ms until the first echo.  A stick that is
+    slow to wake (HGI80, a VM, ser2net) answers k >= 1 of them late and at once, in the same read as ordinary
+    traffic, or once more after the connection has been made: the echoes are ordinary lines and nothing that
+    follows them in the read may be lost."""
+    from ramses_tx.protocol import protocol_factory
+    from ramses_tx.transport import transport_factory
+
+    rng = ctx.rng
+    frames = gen.corpus_frames()
+    n = 12 if ctx.quick else 200
+    for case in range(n):
+        k = rng.choice((1, 2, 2, 3, 5))
+        layout = rng.choice(("one-read", "echo-per-read", "late-echo", "foreign-signature"))
+        valid: list[str] = []
+        while len(valid) < 4:
+            _, f = frames[rng.randrange(len(frames))]
+            try:
+                from ramses_tx.message import Message
+                from ramses_tx.packet import Packet
+
+                Message(Packet.from_file(BASE_DTM.isoformat(timespec="microseconds"), f))
+            except Exception:  # noqa: BLE001
+                continue
+            if f[4:] not in {v[4:] for v in valid} and " 7FFF " not in f:
+                valid.append(f)
+        got: list[str] = []
+        sigs: list[str] = []
+        port = FakeSerial()
+        state = {"answered": False}
+
+        def echo_of(sig: str) -> str:
+            return "000 " + sig.replace("18:000730", "18:006402", 1)
+
+        def on_write(_port, data: bytes, k=k, layout=layout, valid=valid, state=state, sigs=sigs, port=port) -> None:
+            line = data.decode("latin-1").rstrip("\r\n")
+            if " 7FFF " not in line:
+                return
+            sigs.append(line)
+            if state["answered"] or len(sigs) < k:
+                return
+            state["answered"] = True
+            echoes = [echo_of(x) for x in sigs]
+            if layout == "foreign-signature":  # a neighbour's gateway starting up at the same moment
+                echoes.insert(1 if len(echoes) > 1 else 0, "045 " + sigs[0].replace("18:000730", "18:111111", 1)[:-8] + "DEADBEEF")
+            if layout == "echo-per-read":
+                for e in echoes:
+                    port.stage((e + "\r\n").encode())
+                port.stage("".join(v + "\r\n" for v in valid).encode())
+            else:
+                port.stage("".join(x + "\r\n" for x in echoes + valid).encode())
+
+        port.on_write = on_write
+        protocol = protocol_factory(lambda m, got=got: got.append(str(m._pkt)), disable_sending=False)
+        before = len(loop.unhandled)
+        with serial_patched():
+            try:
+                transport = await asyncio.wait_for(transport_factory(protocol, port_name=port.name, port_config={}), timeout=10)
+            except Exception as err:  # noqa: BLE001
+                ctx.violate(f"C01|startup|transport-did-not-start|{type(err).__name__}|{innermost_lib_frame(err)}", "a serial gateway whose stick echoed its signature did not start", {"k": k, "layout": layout, "error": repr(err)[:200]})
+                port.close()
+                continue
+        await asyncio.sleep(0.3)
+        tail = valid[:2]
+        if layout == "late-echo":  # the stick repeats its answer after the connection was made, ahead of more traffic
+            port.stage("".join(x + "\r\n" for x in [echo_of(sigs[0]), *tail]).encode())
+            await asyncio.sleep(0.3)
+        ctx.ev()
+        ctx.count("startup.cases")
+        if len(sigs) <= k + 1:  # the poll stopped: the echo was recognised
+            ctx.count("startup.signature_recognised")
+        ctx.seen(f"startup|k={min(len(sigs), 9)}|{layout}")
+        want = [v[4:] for v in valid] + ([v[4:] for v in tail] if layout == "late-echo" else [])
+        have = [g for g in got if " 7FFF " not in g]
+        witness = {"signatures_written": len(sigs), "answered_after": k, "layout": layout, "frames": valid, "delivered": have[:8]}
+        if have != want:
+            ctx.violate("C01|startup|valid-lines-not-delivered", "frames that follow the signature echoes of a starting serial gateway were not (all) delivered", witness)
+        for u in loop.unhandled[before:]:
+            if u.get("where"):
+                ctx.violate(f"C01|loop-exception|{u['type']}|{u['where']}", "an exception from the receive path reached the event-loop exception handler", {**u, **witness})
+        del loop.unhandled[before:]
+        transport.close()
+        await asyncio.sleep(0.1)
+        port.close()
+
+
+# ---------------------------------------------------------------------------- (e) a saved state handed to Gateway.start()
+_ODD_STAMPS = (
+    ("aware-utc", lambda t: t.isoformat(timespec="microseconds") + "+00:00", True),
+    ("aware-offset", lambda t: t.isoformat(timespec="microseconds") + "-05:00", True),
+    ("aware-z", lambda t: t.isoformat(timespec="microseconds") + "Z", True),
+    ("seconds-only", lambda t: t.isoformat(timespec="seconds"), True),
+    ("undatable", lambda t: t.isoformat(timespec="microseconds").replace(":0", ":0x", 1) if ":0" in t.isoformat() else "2024-13-01T00:00:00.000000", False),
+    ("month-13", lambda t: "2024-13-01T00:00:00.000000", False),
+    ("empty", lambda t: "", False),
+    ("words", lambda t: "not a timestamp at all", False),
+    ("year-0001-aware", lambda t: "0001-01-01T00:00:00.000000+14:00", None),
+    ("year-9999-aware", lambda t: "9999-12-31T23:59:59.999999-14:00", None),
+)
+
+
+async def part_e(loop: vloop.VirtualLoop, ctx) -> None:
+    """The saved-state dict as an application hands it over: Gateway.start(cached_packets=...).  Keys are the
+    line's timestamp; one odd key (timezone-aware, undatable, empty, at the end of the calendar) or one junk
+    line must not keep the other entries from being restored, and nothing but the library's own errors may
+    come out of start()."""
+    from . import harness
+    from .air import Air
+
+    rng = ctx.rng
+    frames = gen.corpus_frames()
+    cache: dict[str, bool] = {}
+
+    def solo_ok(f: str) -> bool:
+        from ramses_tx import exceptions as exc
+        from ramses_tx.message import Message
+        from ramses_tx.packet import Packet
+
+        if f not in cache:
+            try:
+                Message(Packet.from_file(BASE_DTM.isoformat(timespec="microseconds"), f))
+                cache[f] = True
+            except (exc.PacketInvalid, ValueError, AssertionError):
+                cache[f] = False
+        return cache[f]
+
+    n = 10 if ctx.quick else 150
+    for case in range(n):
+        valid, stream, kind, pos = _build_stream(ctx, frames, solo_ok)
+        stamp_kind, stamp, datable = _ODD_STAMPS[(case + ctx.shard) % len(_ODD_STAMPS)]
+        odd_at = rng.randrange(len(stream))
+        t = BASE_DTM
+        d: dict[str, str] = {}
+        dropped: set[str] = set()
+        for i, line in enumerate(stream):
+            t += td(milliseconds=91)
+            key = stamp(t) if i == odd_at else t.isoformat(timespec="microseconds")
+            if key in d:
+                continue
+            if i == odd_at and datable is not True and line in valid:
+                dropped.add(line[4:])  # a line that cannot be dated is refused; one at the end of the calendar may be
+            d[key] = line
+        want = [v[4:] for v in valid if v[4:] not in dropped]
+        got: list[str] = []
+        air = Air(loop)
+        witness = {"packets": d, "odd_stamp": stamp_kind, "odd_at": odd_at, "junk_kind": kind}
+        from ramses_rf import Gateway
+
+        port = air.add_port("18:006402")
+        before = len(loop.unhandled)
+        gwy = None
+        try:
+            with serial_patched():
+                gwy = Gateway(port.name, config={"disable_discovery": True, "enforce_known_list": False})
+                handler = gwy._msg_handler
+                gwy._msg_handler = lambda msg, h=handler, got=got: (got.append(str(msg._pkt)), h(msg))[1]  # type: ignore[method-assign]
+                await asyncio.wait_for(gwy.start(cached_packets=d), timeout=30)
+        except Exception as err:  # noqa: BLE001
+            from ramses_tx import exceptions as exc
+
+            ctx.violate(
+                f"C01|restore|start-raised|{type(err).__name__}|{innermost_lib_frame(err)}",
+                "Gateway.start(cached_packets=...) raised: one odd entry of a saved state kept all of it from being restored",
+                {**witness, "error": repr(err)[:200]},
+            )
+            if gwy is not None:
+                await harness.stop_gateway(gwy)
+            air.close()
+            continue
+        await vloop.drain(loop)
+        ctx.ev()
+        ctx.count("restore.cases")
+        ctx.seen(f"restore|{stamp_kind}|{kind}|{pos}")
+        have = _subseq_of_valid(got, {v[4:] for v in valid})
+        if datable is None:  # may or may not be kept, but nothing else may go with it
+            odd_line = stream[odd_at][4:]
+            have = [h for h in have if h != odd_line]
+            want = [w for w in want if w != odd_line]
+        if have != want:
+            ctx.violate(
+                f"C01|restore|valid-lines-not-restored|{stamp_kind if datable is not True else 'junk-line'}",
+                "an odd entry of a saved state changed what was restored of the other entries",
+                {**witness, "missing": [w for w in want if w not in have][:4], "restored": len(have), "expected": len(want)},
+            )
+        for u in loop.unhandled[before:]:  # (a full gateway: what its devices do with a delivered message is not the receive path)
+            if u.get("where") and u["where"].split(":")[0] in TX_FILES:
+                ctx.violate(f"C01|loop-exception|{u['type']}|{u['where']}", "an exception from the receive path reached the event-loop exception handler", {**u, "odd_stamp": stamp_kind})
+            else:
+                ctx.count("restore.device_level_exceptions_not_judged")
+        del loop.unhandled[before:]
+        await harness.stop_gateway(gwy)
+        air.close()
+
+
 def run(ctx) -> None:
+    from . import harness
+
     part_a(ctx)
     vloop.run(part_bc, ctx)
+    vloop.run(part_d, ctx)
+    harness.reset_transport_globals()
+    vloop.run(part_e, ctx)
